@@ -14,6 +14,11 @@ class FilePatterns:
 
     def __init__(self, name):
         self.name = name
+        # the i-th configured path and the number of configured files (uninterpreted function + count:
+        # z3's sequence theory is incomplete for nth over Seq(String) under uninterpreted functions)
+        self.key_fn = z3.Function(name + ".key", z3.IntSort(), z3.StringSort())
+        self.n = z3.Int(name + ".count")
+        # the same keys as a set-like sequence, for `set(cfg.file_patterns.keys())`
         self.keys_seq = SSeq(z3.Const(name + ".keys", z3.SeqSort(z3.StringSort())), "str")
 
     def __repr__(self):
@@ -32,7 +37,7 @@ class FilePatterns:
         return isinstance(other, FilePatterns) and (other is self or other.name == self.name)
 
     def __pyvc_truthy__(self):
-        return z3.Length(self.keys_seq.t) > 0
+        return self.n > 0
 
 
 class FilePatternItems:
@@ -40,19 +45,21 @@ class FilePatternItems:
 
     def __init__(self, fp):
         self.fp = fp
-        self.seq = fp.keys_seq
+        self.n = fp.n
 
     def __pyvc_elem__(self, k):
         from pyvc.values import SOpaque, opaque_sort
 
-        path = SStr(self.fp.keys_seq.t[k])
+        path = SStr(self.fp.key_fn(k))
         pats = SOpaque("PatternList", z3.Function(self.fp.name + ".patterns", z3.IntSort(), opaque_sort("PatternList"))(k))
         return (path, pats)
 
 
 class KFilePatterns(Kind):
     def fresh(self, name, assumptions):
-        return FilePatterns(name)
+        fp = FilePatterns(name)
+        assumptions.append(fp.n >= 0)
+        return fp
 
 
 def k_config():
